@@ -430,12 +430,11 @@ def shard_specs(ctx):
     for lo in range(0, n1, step):
         specs.append(("exh", g1, lo, lo + step, ctx.rng.getrandbits(32)))
     n10 = sum(1 for _ in disjoint_rows(5, 10))
-    lo = 0
-    while lo < n10:
-        # thorough: the first 551 configurations (<= 2 rows) are expanded over all chunkings x all windows
-        step10 = 12 if (big and lo < 560) else 400
+    # disjoint_rows enumerates depth first, so the <= 2-row configurations (expanded over all chunkings x all
+    # windows in the thorough tier) are spread evenly over the shards
+    step10 = 150 if big else 400
+    for lo in range(0, n10, step10):
         specs.append(("g10", big, lo, lo + step10, ctx.rng.getrandbits(32)))
-        lo += step10
     for _ in range(60 if big else 5):
         specs.append(("rand_small", 1000, ctx.rng.getrandbits(32)))
     for _ in range(60 if big else 5):
